@@ -133,8 +133,9 @@ Section Kernels.
     intros vs _. destruct vs as [|[| z | l xs0 |] r]; try apply sat_raise.
     - destruct (forallb _ r); [apply sat_ret; exact I|]. destruct (forallb _ r); apply sat_raise.
     - destruct (forallb _ r); [|apply sat_raise].
+      destruct (negb _); [apply sat_raise|].
       destruct (pick_samples _ _ _); [|apply sat_raise].
-      destruct (length picks =? length xs0); [|apply sat_raise].
+      destruct (length xs0 <=? length picks); [|apply sat_raise].
       eapply sat_bind; [apply sat_new_arr|]. intros; apply sat_ret; auto.
   Qed.
   Lemma sat_blend_cells cells picks : sat h0 (blend_cells cells picks) (fresh h0).
@@ -144,6 +145,24 @@ Section Kernels.
     intros ds _. destruct ds as [|d0 dr]; [apply sat_raise|].
     destruct (negb _); [apply sat_raise|].
     eapply sat_bind; [apply sat_mapM_all; intros; apply sat_blend_field|]. intros clean _.
+    eapply sat_bind; [apply sat_new_dict|]. intros; apply sat_replace.
+  Qed.
+
+  Lemma sat_blend_field_linear c ds ws k : sat h0 (blend_field_linear c ds ws k) freshkv.
+  Proof.
+    unfold blend_field_linear. eapply sat_bind.
+    { apply sat_mapM_all with (Q := fun _ => True). intros d.
+      destruct (dget k d); [eapply sat_true; apply sat_view|apply sat_raise]. }
+    intros vs _. destruct (negb _); [apply sat_raise|]. destruct (negb _); [apply sat_raise|].
+    eapply sat_bind; [apply sat_new_arr|]. intros; apply sat_ret; auto.
+  Qed.
+  Lemma sat_blend_cells_linear c cells ws : sat h0 (blend_cells_linear c cells ws) (fresh h0).
+  Proof.
+    unfold blend_cells_linear. destruct cells as [|c0 cr]; [apply sat_raise|].
+    eapply sat_bind; [apply sat_mapM_all with (Q := fun _ => True); intros; apply sat_cell_items|].
+    intros ds _. destruct ds as [|d0 dr]; [apply sat_raise|].
+    destruct (negb _); [apply sat_raise|]. destruct (negb _); [apply sat_raise|].
+    eapply sat_bind; [apply sat_mapM_all; intros; apply sat_blend_field_linear|]. intros clean _.
     eapply sat_bind; [apply sat_new_dict|]. intros; apply sat_replace.
   Qed.
 
@@ -172,6 +191,7 @@ Section Kernels.
     - apply sat_weight_cell_values.
     - apply sat_policy_year_cell.
     - apply sat_blend_cells.
+    - apply sat_blend_cells_linear.
   Qed.
 End Kernels.
 
@@ -236,6 +256,7 @@ Definition call_args (k : call) : list val :=
   | KWeightCellValues cell _ => [cell]
   | KPolicyYearCell _ cells _ => cells
   | KBlendCells cells _ => cells
+  | KBlendCellsLinear cells _ => cells
   end.
 Theorem kernels_frame_reachable : forall (c : cfg) (h : heap) (k : call),
   heap_ok h -> Forall (val_ok (length h)) (call_args k) ->
@@ -296,6 +317,7 @@ Proof.
   - apply (sat_post h _ _ (sat_weight_cell_values h c cell weights)).
   - apply (sat_post h _ _ (sat_policy_year_cell h c tag cells shares)).
   - apply (sat_post h _ _ (sat_blend_cells h cells picks)).
+  - apply (sat_post h _ _ (sat_blend_cells_linear h c cells weights)).
 Qed.
 (* the cases where the result IS an argument object *)
 Lemma alias_derive_fields_none self h : derive_fields self [] h = Ret h self.
